@@ -226,28 +226,36 @@ func checkFormatter(id string, s *ev.Shard, x string) *rp.Fail {
 
 // ---- C08 ---------------------------------------------------------------------------
 
-var lineRe = regexp.MustCompile(`\(Line (-?\d+)\)`)
+var sepRe = regexp.MustCompile(`\n\n(-?\d+) \|[ \t]?`)
 
-// checkErrText verifies the "located error" clause for one error message.
+// checkErrText verifies the "located error" clause for one error message. Both error types
+// of the code base print "<message> (Line N)...", a blank line, then "N |<tab><line N>". The
+// message part holds text of one input line only, so the first blank line followed by
+// "N |" is the separator — text such as "(Line 0)" inside the user's own string cannot be
+// mistaken for the citation (a mistake this oracle made until the fuzzer found it: K9).
 func checkErrText(x, msg string) *rp.Fail {
-	m := lineRe.FindStringSubmatch(msg)
-	if m == nil {
-		return &rp.Fail{Sig: "error-without-line", Msg: fmt.Sprintf("input %q: syntax error cites no line: %q", x, msg), Size: len(x)}
+	loc := sepRe.FindStringSubmatchIndex(msg)
+	if loc == nil {
+		if !strings.Contains(msg, "(Line ") {
+			return &rp.Fail{Sig: "error-without-line", Msg: fmt.Sprintf("input %q: syntax error cites no line: %q", x, msg), Size: len(x)}
+		}
+		return &rp.Fail{Sig: "error-without-quoted-line", Msg: fmt.Sprintf("input %q: syntax error does not quote a line: %q", x, msg), Size: len(x)}
 	}
-	n, _ := strconv.Atoi(m[1])
+	n, _ := strconv.Atoi(msg[loc[2]:loc[3]])
+	head, context := msg[:loc[0]], msg[loc[1]:]
+	if !strings.Contains(head, fmt.Sprintf("(Line %d)", n)) {
+		if !strings.Contains(head, "(Line ") {
+			return &rp.Fail{Sig: "error-without-line", Msg: fmt.Sprintf("input %q: syntax error cites no line: %q", x, msg), Size: len(x)}
+		}
+		return &rp.Fail{Sig: "error-quotes-wrong-line", Msg: fmt.Sprintf("input %q: the line number in front of the quoted line (%d) is not the one cited in the message: %q", x, n, msg), Size: len(x)}
+	}
 	lines := strings.Split(x, "\n")
 	if n < 1 || n > len(lines) {
 		return &rp.Fail{Sig: "error-line-out-of-range", Msg: fmt.Sprintf("input %q (%d lines): syntax error cites line %d: %q", x, len(lines), n, msg), Size: len(x)}
 	}
 	want := strings.TrimSpace(lines[n-1])
-	got := strings.TrimRightFunc(msg, unicode.IsSpace)
-	ok := strings.HasSuffix(got, want)
-	if ok {
-		before := strings.TrimRightFunc(strings.TrimSuffix(got, want), unicode.IsSpace)
-		ok = strings.HasSuffix(before, "|")
-	}
-	if !ok {
-		return &rp.Fail{Sig: "error-quotes-wrong-line", Msg: fmt.Sprintf("input %q: syntax error cites line %d but does not quote that line (%q): %q", x, n, want, msg), Size: len(x)}
+	if strings.TrimSpace(context) != want {
+		return &rp.Fail{Sig: "error-quotes-wrong-line", Msg: fmt.Sprintf("input %q: syntax error cites line %d but quotes %q instead of that line (%q): %q", x, n, strings.TrimSpace(context), want, msg), Size: len(x)}
 	}
 	return nil
 }
